@@ -761,6 +761,10 @@ def call_contract(ex, c, node, mod, fnobj, args, kwargs, st, fr):
     for gname, gtype in c.ghost_init.items():
         s1.ghost[gname] = ex.fresh(gtype, gname, s1)      # ghost state the callee advances
     res = ex.fresh(c.result, 'ret.' + c.qualname, s1) if c.result not in (None, 'none') else NONE
+    alias = getattr(c, 'result_alias', None)
+    if alias:       # the callee returns its argument (or None when the declared result is Optional)
+        res = VOpt(z3.Bool(fresh_name('ret.%s?none' % c.qualname)), env[alias]) \
+            if isinstance(c.result, tuple) and c.result[0] == 'opt' else env[alias]
     senv = SpecEnv(s1, dict(env), pre_env, res)
     for nm, text in c.ensures + c.inv:
         s1.assume(ex.spec.bool(text, senv))
